@@ -20,7 +20,7 @@ fn stub_shuffle_epi8(a: __m128i, b: __m128i) -> __m128i {
     unsafe { core::mem::transmute(r) }
 }
 
-//@ h=agg_ssse3_kernel props=C07,C17 cfgs=K6 tier=q t=900 | funcs: x86_ssse3::sub_aggregation | bound: any 4 u32 counters x all q1<=q2<=q3: == packed reference dibits | stubs: _mm_shuffle_epi8 -> Intel pseudo-code
+//@ h=agg_ssse3_kernel props=C01,C07,C17 cfgs=K6 tier=q t=900 | funcs: x86_ssse3::sub_aggregation | bound: any 4 u32 counters x all q1<=q2<=q3: == packed reference dibits | stubs: _mm_shuffle_epi8 -> Intel pseudo-code
 #[kani::proof]
 #[kani::unwind(18)]
 #[kani::stub(core::arch::x86_64::_mm_shuffle_epi8, stub_shuffle_epi8)]
@@ -54,9 +54,9 @@ macro_rules! agg_struct {
         }
     };
 }
-//@ h=agg_ssse3_48 props=C07,C17 cfgs=K6 tier=q t=900 | funcs: x86_ssse3::aggregate_48 | bound: all inputs: byte k == real kernel on buckets 4(11-k).. | stubs: _mm_shuffle_epi8 pseudo-code
+//@ h=agg_ssse3_48 props=C01,C07,C17 cfgs=K6 tier=q t=900 | funcs: x86_ssse3::aggregate_48 | bound: all inputs: byte k == real kernel on buckets 4(11-k).. | stubs: _mm_shuffle_epi8 pseudo-code
 agg_struct!(agg_ssse3_48, aggregate_48, 48, 12, 52);
-//@ h=agg_ssse3_128 props=C07,C17 cfgs=K6 tier=t t=1800 | funcs: x86_ssse3::aggregate_128 | bound: all inputs | stubs: _mm_shuffle_epi8 pseudo-code
+//@ h=agg_ssse3_128 props=C01,C07,C17 cfgs=K6 tier=t t=1800 | funcs: x86_ssse3::aggregate_128 | bound: all inputs | stubs: _mm_shuffle_epi8 pseudo-code
 agg_struct!(agg_ssse3_128, aggregate_128, 128, 32, 132);
-//@ h=agg_ssse3_256 props=C07,C17 cfgs=K6 tier=t t=2400 | funcs: x86_ssse3::aggregate_256 | bound: all inputs | stubs: _mm_shuffle_epi8 pseudo-code
+//@ h=agg_ssse3_256 props=C01,C07,C17 cfgs=K6 tier=t t=2400 | funcs: x86_ssse3::aggregate_256 | bound: all inputs | stubs: _mm_shuffle_epi8 pseudo-code
 agg_struct!(agg_ssse3_256, aggregate_256, 256, 64, 260);
